@@ -18,6 +18,7 @@
 -/
 import LiteFSVerif.Proofs.Protocol
 import LiteFSVerif.Proofs.ApplyBytes
+import LiteFSVerif.Proofs.Replicate
 
 namespace LiteFSVerif.C01
 open LiteFSVerif LiteFSVerif.Cks LiteFSVerif.Cluster LiteFSVerif.Protocol
@@ -123,5 +124,39 @@ theorem C01_apply_same_file_same_bytes (a a' b b' : Engine.Eng) (f : Engine.LTXF
   rw [BA.getD_lt hi] at e1
   rw [BA.getD_lt hi'] at e2
   rw [e1, e2, hpe, hbytes i]
+
+
+/-- engine, byte level, end to end for a rollback-journal commit: the file the primary publishes,
+    applied by any node with the same page size whose database bytes agree with the primary's
+    outside the captured pages (a replica at the previous position, given that the dirty set
+    covers every page the transaction changed), leaves that node with a database file of exactly
+    the committed size that equals the primary's database file byte for byte. -/
+theorem C01_journal_commit_replicates_bytes (p p' : Engine.Eng) (mode : Nat)
+    (hcommit : Engine.commitJournalValid p mode = .ok p') (hps : p.pageSize ≠ 0) :
+    ∃ (dbf : ByteArray) (lock : Nat) (f : Engine.LTXFile), p'.dbFile = some dbf ∧ Cks.lockPgno p.pageSize = .ok lock ∧
+      p'.ltx = Engine.addLTX p.ltx f ∧
+      ∀ (r r' : Engine.Eng) (fatal : Bool), Engine.applyLTX r f fatal = .ok r' → f.commit > 0 → r.pageSize = p.pageSize →
+        (∀ i, (∀ q ∈ (Engine.sortNat (p.dirty.filter (· ≤ f.commit))).filter (· ≠ lock), ¬ Engine.covers p.pageSize q i) →
+            BA.getD (Engine.dbBytes r) i = BA.getD dbf i) →
+        ∃ d', r'.dbFile = some d' ∧ d'.size = f.commit * p.pageSize ∧ ∀ i, i < d'.size → BA.getD d' i = BA.getD dbf i :=
+  Engine.journal_commit_replicates p p' mode hcommit hps
+
+/-- engine, byte level, end to end for a WAL commit: the file the primary publishes, applied by
+    any node with the same page size, leaves a database file of exactly the commit frame's size in
+    which every byte of a page the transaction wrote is the byte of that page's last frame in the
+    primary's WAL, and every other byte (and the lock page) is what the node held before. -/
+theorem C01_wal_commit_replicates_bytes (p p' : Engine.Eng) (hcommit : Engine.commitWALBody p = .ok p')
+    (hne : p' ≠ p) (hps : p.pageSize ≠ 0) :
+    ∃ (wal : ByteArray) (tx : Sqlite.TxFrames) (lock : Nat) (f : Engine.LTXFile), p.wal = some wal ∧
+      Sqlite.buildTxFrames wal p.pageSize p.w.offset p.w.bo p.w.salt1 p.w.salt2 p.w.chk1 p.w.chk2 = .ok (some tx) ∧
+      Cks.lockPgno p.pageSize = .ok lock ∧ p'.ltx = Engine.addLTX p.ltx f ∧
+      ∀ (r r' : Engine.Eng) (fatal : Bool), Engine.applyLTX r f fatal = .ok r' → f.commit > 0 → r.pageSize = p.pageSize →
+        ∃ d', r'.dbFile = some d' ∧ d'.size = tx.commit * p.pageSize ∧
+          ∀ i q, i < d'.size → q ≠ 0 → Engine.covers p.pageSize q i →
+            BA.getD d' i = (if q = lock then BA.getD (Engine.dbBytes r) i else
+              match tx.offsets.lookup q with
+              | some off => BA.getD wal (off + 24 + (i - (q - 1) * p.pageSize))
+              | none => BA.getD (Engine.dbBytes r) i) :=
+  Engine.wal_commit_replicates p p' hcommit hne hps
 
 end LiteFSVerif.C01
